@@ -57,6 +57,29 @@ template <class M> struct Runner {
   void print_ret(std::ostream &o, const lm::FullScoreReturn &r) {
     o << std::hex << bits(r.prob) << ' ' << std::dec << (unsigned)r.ngram_length << ' ' << (r.independent_left ? 1 : 0) << ' ';
   }
+  // derivation tree: ( [B] [^] item* ), item = hex harness id | tree.  Child scores are passed as prob (inclusive).
+  float eval(const std::vector<std::string> &t, size_t &pos, ChartState &out) {
+    ++pos;   // "("
+    bool bos = false, fast = false;
+    if (t.at(pos) == "B") { bos = true; ++pos; }
+    if (t.at(pos) == "^") { fast = true; ++pos; }
+    RuleScore<M> rs(m, out);
+    if (bos) rs.BeginSentence();
+    bool first = true;
+    while (t.at(pos) != ")") {
+      if (t[pos] == "(") {
+        ChartState sub;
+        float p = eval(t, pos, sub);
+        if (first && fast && !bos) rs.BeginNonTerminal(sub, p); else rs.NonTerminal(sub, p);
+      } else {
+        rs.Terminal(to_model.at(strtoul(t[pos].c_str(), NULL, 16)));
+        ++pos;
+      }
+      first = false;
+    }
+    ++pos;   // ")"
+    return rs.Finish();
+  }
   std::string score(bool bos, const std::vector<unsigned> &ids) {
     std::ostringstream o;
     State st = bos ? m.BeginSentenceState() : m.NullContextState();
@@ -128,6 +151,16 @@ template <class M> int run(const char *file, const std::vector<std::string> &voc
         std::vector<unsigned> ids; std::string x;
         while (in >> x) ids.push_back(strtoul(x.c_str(), NULL, 16));
         std::cout << r.score(bos, ids) << '\n';
+      } else if (cmd == "C") {
+        std::vector<std::string> toks; std::string x;
+        while (in >> x) toks.push_back(x);
+        size_t pos = 0;
+        ChartState cs;
+        float p = r.eval(toks, pos, cs);
+        std::ostringstream o;
+        o << std::hex << bits(p) << ' ' << std::dec << (unsigned)cs.left.length << ' ' << (cs.left.full ? 1 : 0) << ' ';
+        r.print_state(o, cs.right);
+        std::cout << o.str() << '\n';
       } else std::cout << "?\n";
     }
   } catch (const util::ProbingSizeException &e) {
